@@ -76,6 +76,11 @@ CHECKS.update({
              text="Generated programs are built and run: 32 (quick) / 256 (thorough) modules, every binding called positionally, with each admissible number of defaults omitted and by keyword; entity incl. template arguments, overload signature, this, argument values, defaults, static vs instance, void vs value, const properties, enumerator values and base-class registration are compared with predictions. Cannot show absence.",
              note="Trusted: vlib.cxxmock (instrumented conforming library), vlib.pyexec (predictions), g++ 12, bundled pybind11, CPython 3.12. Overload sets with overlapping arity ranges are not called (pybind11's resolution).", ref="3/C04"),
 })
+CHECKS.update({
+ 'C11': dict(tech="Hypothesis-generated gateways x call histories (model-based / stateful): the generated MEX source is compiled unmodified with the real matlab.h on a mock MEX runtime and an instrumented mock library, and driven by a MATLAB-object emulator that executes the generated guards and id protocol; trace, results, collector sizes and live-object counts vs a model of live handles after every step and after unload",
+             text="Generated programs and histories are built and run: 96 (quick) / 768 (thorough) gateways with histories of 4-26 calls (construct, method of class or ancestor, static, function, property get/set, object returned from C++, delete, unload). A crash (double free) fails the case. Cannot show absence; two handles on one C++ object and the RTTI up-cast branch are not reached (stated in evidence assumptions).",
+             note="Trusted: vlib/mexmock (mock MEX API), vlib.matlab_emu (MATLAB object semantics: constructor chains, method inheritance, delete order), vlib.cxxmock, vlib.matscan. No AddressSanitizer.", ref="3/C11"),
+})
 PENDING = {}
 
 def main():
